@@ -48,6 +48,7 @@ import (
 
 	"verifharness/cmd/conc/f12"
 	"verifharness/cmd/conc/f13"
+	"verifharness/cmd/conc/f14"
 	"verifharness/cmd/conc/f15"
 	"verifharness/cmd/conc/f16"
 	"verifharness/cmd/conc/f17"
@@ -130,6 +131,12 @@ func load(spec famSpec) *family {
 		cs := f13.Load(spec.Cases)
 		return &family{"f13", len(cs), func(s *sink, g, n int) runner {
 			r := f13.NewRunner(s)
+			return runner{func(i int) { r.Run(&cs[i]) }, r.Finish}
+		}}
+	case "f14": // helpers on UE-supplied contents (C14): malformed contents from all goroutines at once
+		cs := f14.Load(spec.Cases)
+		return &family{"f14", len(cs), func(s *sink, g, n int) runner {
+			r := f14.NewRunner(s)
 			return runner{func(i int) { r.Run(&cs[i]) }, r.Finish}
 		}}
 	case "f15":
